@@ -61,6 +61,8 @@ def run_case(reg, target, case):
         raised = e
     env = dict(args)
     env["result"] = result
+    if raised is None and case.get("post_extra"):
+        env.update(case["post_extra"](args, result))      # run-time witnesses for ghost outputs of the contract
     if raised is not None:
         name = type(raised).__name__
         clauses = con.get("raises", {}).get(name)
